@@ -29,6 +29,36 @@ def crow(r):
     return clist(r, lambda e: f"({cn(e[0])}, {cq(e[1])})")
 
 
+def _gcd(a, b):
+    while b:
+        a, b = b, a % b
+    return a
+
+
+def exact_left_inverse(A):
+    """Exact inverse of a square matrix of Fractions (Gauss-Jordan); returns (N, d), integer N and
+    integer d != 0 with N * A = d * I, or None if A is singular."""
+    n = len(A)
+    M = [list(r) + [Fraction(int(i == j)) for j in range(n)] for i, r in enumerate(A)]
+    for c in range(n):
+        piv = next((r for r in range(c, n) if M[r][c] != 0), None)
+        if piv is None:
+            return None
+        M[c], M[piv] = M[piv], M[c]
+        pv = M[c][c]
+        M[c] = [v / pv for v in M[c]]
+        for r in range(n):
+            if r != c and M[r][c] != 0:
+                fac = M[r][c]
+                M[r] = [a - fac * b for a, b in zip(M[r], M[c])]
+    B = [r[n:] for r in M]
+    d = 1
+    for r in B:
+        for v in r:
+            d = (d * v.denominator) // _gcd(d, v.denominator)
+    return [[int(v * d) for v in r] for r in B], d
+
+
 # ------------------------------------------------------------------------------ grids
 def make_grid(spec):
     kind = spec["kind"]
@@ -139,7 +169,10 @@ class C16(Prop):
         "the face normal, the rotation rows to -(n x .) and the signed normals of every cell sum to "
         "zero, then (t, 0, 0) makes every row of Div*[F|RHS] - Accumulation vanish, for every "
         "translation t (C16_system_solution); it is the only solution if the system matrix has a "
-        "trivial kernel (C16_unique_solution); and the checker evaluated in the tie is sound with "
+        "trivial kernel (C16_unique_solution), and the trivial kernel is ESTABLISHED per instance, "
+        "not assumed, wherever an exact left-inverse certificate N A = d I (computed by the harness "
+        "in exact rationals, verified by Coq on the assembled rows) is supplied — systems with at "
+        "most 20 unknowns (C16_nonsingular_certificate, C16_unique_solution_certified); and the checker evaluated in the tie is sound with "
         "its tolerance carried through quantitatively (C16_certificate_sound: |row . state| <= "
         "tol*(1+sum|row|)*sum|t_k| for every stress row and every assembled row, every t). Per run "
         "Coq evaluates the checkers by vm_compute on the REAL matrices of Tpsa.discretize (all "
@@ -151,8 +184,10 @@ class C16(Prop):
         "matrices are inputs whose certificates are checked per generated instance only); float "
         "rounding (certificates hold up to the relative tolerance 1e-9, and the quantitative "
         "theorem bounds the residual accordingly; the exact theorems apply to the nearby exact "
-        "matrices); non-singularity of the assembled matrix (hypothesis of C16_unique_solution, "
-        "observed by the oracle's dense solve, skipped above condition number 1e7). The assembled "
+        "matrices); non-singularity of the assembled matrix on instances with more than 20 unknowns (there "
+        "it stays the hypothesis of C16_unique_solution, observed by the oracle's dense solve, "
+        "skipped above condition number 1e7; on smaller instances it is certified exactly, count in "
+        "evidence.oracle_solve.nonsingularity_certificates). The assembled "
         "system is the one of the TPSA tests and docstring: Div*face_discretization - diag(0, "
         "V/mu, V/lambda), b = -Div*rhs_matrix*g, assembled in Coq from the face rows and the "
         "incidence rows of sd.divergence(1) (the harness checks that sd.divergence(nd) is its "
@@ -245,12 +280,50 @@ class C16(Prop):
                 raise RuntimeError("sd.divergence(dim) is not the Kronecker expansion of sd.divergence(1)")
         inc = rows_of(div1)
         acc = np.hstack([np.repeat(g.cell_volumes / C.mu, rd), g.cell_volumes / C.lmbda])
-        return {"nd": nd, "rd": rd, "nc": nc, "nf": nf, "inc": inc,
+        full = {"nd": nd, "rd": rd, "nc": nc, "nf": nf, "inc": inc,
                 "normals": [[float(x) for x in g.face_normals[:nd, f]] for f in range(nf)],
                 "dir": [bool(x) for x in bc.is_dir.ravel("F")],
                 "neu_flags": [bool(x) for x in bc.is_neu.ravel("F")],
                 "srows": rows_of(srows), "rrows": rows_of(rrows), "mrows": rows_of(mrows),
                 "arows": rows_of(arows), "acc": [float(x) for x in acc]}
+        full["inv"] = self._inverse(full)
+        return full
+
+    INV_MAX = 20
+
+    def _inverse(self, full):
+        """Exact left inverse of the assembled system matrix, built from the same rationals and in the
+        same row order as Model.C16.system_rows (per cell: nd momentum rows, rd rotation rows, 1 mass
+        row), on small systems only."""
+        nd, rd, nc = full["nd"], full["rd"], full["nc"]
+        n = (nd + rd + 1) * nc
+        if n > self.INV_MAX:
+            return None
+        A = []
+
+        def gather(rows, stride, off, c):
+            out = [Fraction(0)] * n
+            for f, s in full["inc"][c]:
+                for col, v in rows[f * stride + off]:
+                    if col < n:
+                        out[col] += Fraction(s) * Fraction(v)
+            return out
+
+        for c in range(nc):
+            for k in range(nd):
+                A.append(gather(full["srows"], nd, k, c))
+            for i in range(rd):
+                r = gather(full["rrows"], rd, i, c)
+                r[nd * nc + c * rd + i] -= Fraction(full["acc"][c * rd + i])
+                A.append(r)
+            r = gather(full["mrows"], 1, 0, c)
+            r[(nd + rd) * nc + c] -= Fraction(full["acc"][rd * nc + c])
+            A.append(r)
+        res = exact_left_inverse(A)
+        if res is None:
+            return None
+        N, d = res
+        return {"N": [[str(v) for v in r] for r in N], "d": str(d)}
 
     # -------------------------------------------------------------- oracle (numpy, independent of Coq)
     @staticmethod
@@ -306,13 +379,17 @@ class C16(Prop):
     # -------------------------------------------------------------- tie
     def _inst(self, res):
         rows = lambda rs: clist(rs, crow)
-        return ("(mk_inst {} {} {} {} {} {} {} {} {} {} {} {})".format(
+        ci = lambda z: f"({z} # 1)" if not str(z).startswith("-") else f"(({z}) # 1)"
+        inv = "None"
+        if res.get("inv"):
+            inv = "(Some ({}, {}))".format(clist(res["inv"]["N"], lambda r: clist(r, ci)), ci(res["inv"]["d"]))
+        return ("(mk_inst {} {} {} {} {} {} {} {} {} {} {} {} {})".format(
             cn(res["nd"]), cn(res["rd"]), cn(res["nc"]), cn(res["nf"]),
             rows(res["inc"]),
             clist(res["normals"], lambda v: clist(v, cq)),
             clist(res["dir"], cbool),
             rows(res["srows"]), rows(res["rrows"]), rows(res["mrows"]), rows(res["arows"]),
-            clist(res["acc"], cq)))
+            clist(res["acc"], cq), inv))
 
     def coq_case(self, case, res):
         return f"check {TOL} {self._inst(self._full(case))}"
@@ -323,6 +400,8 @@ class C16(Prop):
     def nontrivial(self, case, res):
         self._stats["dims"][res["nd"]] = self._stats["dims"].get(res["nd"], 0) + 1
         self._stats["bc_modes"][case["mode"]] = self._stats["bc_modes"].get(case["mode"], 0) + 1
+        if self._full(case).get("inv"):
+            self._stats["nonsingularity_certificates"] = self._stats.get("nonsingularity_certificates", 0) + 1
         return res["nc"] >= 2 and any(x != 0 for x in case["t"])
 
     def describe(self, case):
